@@ -37,6 +37,38 @@ class LexDFA:
         self.n = len(states); self.trans = trans
         self.acc = [min([finals[x] for x in S if x in finals] or [255]) for S in states]
         self.dead = [len(S) == 0 for S in states]
+    def minimal_tables(self):
+        """(trans, label, dead) of the minimal complete DFA with accepting states labelled by term index (255 = none); state 0 = start"""
+        n = self.n; part = list(self.acc)
+        while True:
+            sig = {}; newp = [0] * n
+            for s in range(n):
+                k = (part[s], tuple(part[t] for t in self.trans[s]))
+                if k not in sig: sig[k] = len(sig)
+                newp[s] = sig[k]
+            if len(sig) == len(set(part)): part = newp; break
+            part = newp
+        rep = {}
+        for s in range(n): rep.setdefault(part[s], s)
+        order = {part[0]: 0}; q = [part[0]]; qi = 0
+        while qi < len(q):
+            b = q[qi]; qi += 1
+            for c in range(256):
+                t = part[self.trans[rep[b]][c]]
+                if t not in order: order[t] = len(order); q.append(t)
+        m = len(order); tr = [None] * m; lab = [255] * m
+        for b, i in order.items():
+            tr[i] = [order[part[t]] for t in self.trans[rep[b]]]; lab[i] = self.acc[rep[b]]
+        dead = []
+        for i in range(m):
+            seen = {i}; w = [i]; live = False
+            while w:
+                x = w.pop()
+                if lab[x] != 255: live = True; break
+                for t in set(tr[x]):
+                    if t not in seen: seen.add(t); w.append(t)
+            dead.append(not live)
+        return tr, lab, dead
     def lex(self, s, pos):
         st = 0; best = None
         for i in range(pos, len(s)):
